@@ -2621,7 +2621,7 @@ func parentsExist(w *World, r *Report, rule string) {
 				// that leads to it, the found-edges are the success edges of that call (ensures-summary of the helper)
 				var site ssa.Instruction = g.(ssa.Instruction)
 				foundEdges := passErrNil(g)
-				if len(gd.chain) > 0 {
+				if len(gd.chain) > 0 && enclosingRangeHeader(g.Block()) == nil { // (a helper that holds the whole loop is judged where the loop is)
 					site = gd.chain[0].(ssa.Instruction)
 					spec := func(fn2 *ssa.Function, _ resolver) []Edge {
 						var es []Edge
